@@ -240,7 +240,7 @@ pub fn generate(out: &mut Out, tier: &str, seed: u64) {
     }
     // depth 3..4: random chains, biased towards valid offsets
     let mut rng = Rng::new(seed);
-    let nrand = if thorough { 100000 } else { 12000 };
+    let nrand = if thorough { 1500000 } else { 12000 };
     let long = "He\u{e9}llo w\u{f6}rld \u{20ac}5 \u{1f600} end";
     for _ in 0..nrand {
         let t = if rng.chance(1, 3) { long } else { *rng.pick(&texts) };
